@@ -177,6 +177,9 @@ func init() {
 			r := cfgRng(seed)
 			mn, mx := tierOps(tier, 10, 30)
 			ctl := sampleCtl(r)
+			if _, avoid := avoidFlags(); avoid["capacity_sync_reload"] {
+				ctl.ReloadIntervalMs = 0
+			}
 			rc := &RunConfig{Property: "C11", Profile: "quiet-capacity", Seed: seed, Ctl: ctl, MapOrder: r.IntN(2) == 0, Lagfree: true}
 			w := map[string]int{"ep_scale": 20, "ep_ready": 8, "ep_replace": 8, "renotify": 3, "advance": 4}
 			keys := []string{"affinity", "session-cookie-name", "session-cookie-strategy", "balance-algorithm", "maxconn-server", "timeout-server", "initial-weight"}
